@@ -75,10 +75,14 @@ class Mini:
             if e.id in ("True", "False", "None"):
                 return {"True": True, "False": False, "None": None}[e.id]
             raise NoEval(f"name {e.id}")
-        if isinstance(e, ast.Tuple):
-            return tuple(self.ev(x, env) for x in e.elts)
-        if isinstance(e, ast.List):
-            return [self.ev(x, env) for x in e.elts]
+        if isinstance(e, (ast.Tuple, ast.List)):
+            out = []
+            for x in e.elts:
+                if isinstance(x, ast.Starred):
+                    out.extend(self.ev(x.value, env))
+                else:
+                    out.append(self.ev(x, env))
+            return tuple(out) if isinstance(e, ast.Tuple) else out
         if isinstance(e, ast.Set):
             return {self.ev(x, env) for x in e.elts}
         if isinstance(e, ast.Dict):
@@ -195,6 +199,15 @@ class Mini:
                 return _PURE_BUILTINS[fn.id](*[self.ev(a, env) for a in e.args])
             raise NoEval(f"call of {fn.id}")
         if isinstance(fn, ast.Attribute):
+            if ast.unparse(fn) == "functools.reduce" and len(e.args) in (2, 3) and ast.unparse(e.args[0]) in ("operator.mul", "operator.add"):
+                seq = list(self.ev(e.args[1], env))
+                acc = self.ev(e.args[2], env) if len(e.args) == 3 else None
+                for v in seq:
+                    if acc is None:
+                        acc = v
+                    else:
+                        acc = acc * v if ast.unparse(e.args[0]) == "operator.mul" else acc + v
+                return acc
             recv = self.ev(fn.value, env)
             self._check_method(recv, fn.attr)
             return getattr(recv, fn.attr)(*[self.ev(a, env) for a in e.args])
